@@ -159,6 +159,14 @@ def codeName : Code → String
   | .badBody => "E_BAD_BODY"
   | .badProtocol => "E_BAD_PROTOCOL"
 
+/-- which Go function creates which error (all through `protocol.NewFatalClientErr`);
+compared with the regenerated error-site list in `Nsq.Tie.Registry`. -/
+def errSites : List (String × Code) :=
+  [("Exec", .invalid), ("getTopicChan", .invalid), ("getTopicChan", .badTopic),
+   ("getTopicChan", .badChannel), ("REGISTER", .invalid), ("UNREGISTER", .invalid),
+   ("IDENTIFY", .invalid), ("IDENTIFY", .badBody), ("IDENTIFY", .badBody), ("IDENTIFY", .badBody),
+   ("IDENTIFY", .badBody), ("IDENTIFY", .badBody), ("IDENTIFY", .badBody)]
+
 /-- bytes sent for a handler result: `err.Error()` = code, space, description -/
 def replyBytes : TcpOut → List UInt8
   | .ok => ascii "OK"
